@@ -1054,6 +1054,58 @@ def _unroll_table_loops(body: List[ast.stmt], table_of) -> bool:
     return changed
 
 
+# ---------------------------------------------------------------------------------------------------------- for over a generator expression
+def _fuse_generator_loops(fn: ast.FunctionDef) -> bool:
+    """`for T in (E for a in X if c): BODY` (the generator given directly, or through a local bound once and used only there)
+    is the nested loop `for a in X: if c: T = E; BODY` -- generator expressions are lazy, so the interleaving is the same."""
+    stores: Dict[str, int] = {}
+    loads: Dict[str, int] = {}
+    for n in ast.walk(fn):
+        if isinstance(n, ast.Name):
+            d = stores if isinstance(n.ctx, ast.Store) else loads
+            d[n.id] = d.get(n.id, 0) + 1
+    changed = [False]
+
+    def visit(body: List[ast.stmt]):
+        i = 0
+        while i < len(body):
+            st = body[i]
+            for field in ("body", "orelse", "finalbody"):
+                sub = getattr(st, field, None)
+                if isinstance(sub, list) and sub and isinstance(sub[0], ast.stmt) and not isinstance(st, (ast.FunctionDef, ast.AsyncFunctionDef, ast.ClassDef)):
+                    visit(sub)
+            if isinstance(st, ast.Try):
+                for h in st.handlers:
+                    visit(h.body)
+            if isinstance(st, ast.For) and not st.orelse:
+                gen = None
+                drop = None
+                if isinstance(st.iter, ast.GeneratorExp):
+                    gen = st.iter
+                elif isinstance(st.iter, ast.Name) and stores.get(st.iter.id) == 1 and loads.get(st.iter.id) == 1 and i > 0:
+                    prev = body[i - 1]
+                    if isinstance(prev, ast.Assign) and len(prev.targets) == 1 and isinstance(prev.targets[0], ast.Name) \
+                            and prev.targets[0].id == st.iter.id and isinstance(prev.value, ast.GeneratorExp):
+                        gen, drop = prev.value, i - 1
+                if gen is not None and len(gen.generators) == 1 and not gen.generators[0].is_async:
+                    g0 = gen.generators[0]
+                    inner: List[ast.stmt] = [ast.Assign(targets=[st.target], value=gen.elt)] + st.body
+                    for c in reversed(g0.ifs):
+                        inner = [ast.If(test=c, body=inner, orelse=[])]
+                    loop = ast.For(target=g0.target, iter=g0.iter, body=inner, orelse=[], type_comment=None)
+                    ast.copy_location(loop, st)
+                    ast.fix_missing_locations(loop)
+                    body[i] = loop
+                    if drop is not None:
+                        del body[drop]
+                        i -= 1
+                    changed[0] = True
+                    continue
+            i += 1
+    visit(fn.body)
+    return changed[0]
+
+
 def normalize_module_trees(modules: Dict[str, ast.Module]) -> List[str]:
     """Inline single-caller private helpers / closures in place. Returns a log of what was inlined."""
     log: List[str] = []
@@ -1277,6 +1329,10 @@ def normalize_module_trees(modules: Dict[str, ast.Module]) -> List[str]:
                         if disp is None or any(isinstance(e, ast.Starred) for e in disp.elts):
                             return None
                         return list(disp.elts)
+                    if _fuse_generator_loops(fn):
+                        any_change = True
+                        log.append("%s.%s: for-over-generator-expression fused" % (cls.name if cls else mn, fn.name))
+                        ast.fix_missing_locations(fn)
                     if _unroll_table_loops(fn.body, table_of):
                         any_change = True
                         log.append("%s.%s: loop over a constant table unrolled" % (cls.name if cls else mn, fn.name))
